@@ -453,13 +453,19 @@ def solve_pareto_front(
     for vname in minimize_vars:
         opt.minimize(z3.Int(vname))
 
+    objectives = [z3.Int(vname) for vname in minimize_vars]
     results: list[dict[str, int]] = []
     while opt.check() == z3.sat:
         m = opt.model()
         results.append(_int_assignments(m))
         if max_solutions is not None and len(results) >= max_solutions:
             break
-
+        # exclude everything this solution dominates: the next one must be strictly
+        # smaller in some objective, so every Pareto-optimal vector is found once and the
+        # enumeration ends (z3 alone keeps returning the same optimum, e.g. for one objective)
+        opt.add(
+            z3.Or([obj < m.eval(obj, model_completion=True) for obj in objectives])
+        )
     return results
 
 
